@@ -12,6 +12,7 @@ import (
 	"path/filepath"
 	"runtime"
 	"runtime/debug"
+	"runtime/pprof"
 	"strings"
 	"syscall"
 
@@ -105,6 +106,8 @@ type rawPanic struct {
 }
 
 var lastRaw *rawPanic
+
+var debugOn = os.Getenv("C11_DEBUG") != ""
 
 func gnoSite(stack string) string {
 	// first gno frame below the runtime panic frames
@@ -208,7 +211,7 @@ func (e *env) runCase(c Case) (res caseResult) {
 			_, err = e.vmk.Run(ctx, msg)
 		case kindAddPkg:
 			path := "gno.land/r/c11user/pkg"
-			files = append(files, &std.MemFile{Name: "gnomod.toml", Body: gno.GenGnoModLatest(path)})
+			files = append([]*std.MemFile{{Name: "gnomod.toml", Body: gno.GenGnoModLatest(path)}}, files...) // sorted by name
 			msg := vm.MsgAddPackage{Creator: e.addr, Package: &std.MemPackage{Name: "pkg", Path: path, Files: files}}
 			if err = msg.ValidateBasic(); err != nil {
 				return
@@ -216,6 +219,9 @@ func (e *env) runCase(c Case) (res caseResult) {
 			err = e.vmk.AddPackage(ctx, msg)
 		}
 	}()
+	if debugOn {
+		fmt.Fprintf(os.Stderr, "# %s: err=%v esc=%v raw=%v\n", c.ID, shortMsg(err), shortMsg(esc), lastRaw != nil)
+	}
 	if esc != nil {
 		cl := classifyRaw(esc)
 		res.class = cl
@@ -263,6 +269,11 @@ func workerMain() {
 	debug.SetMemoryLimit(3 << 30)
 	vm.VerifRecoverHook = func(r any) { lastRaw = &rawPanic{val: r, stack: string(debug.Stack())} }
 	e := setupEnv()
+	if pf := os.Getenv("C11_PROF"); pf != "" {
+		f, _ := os.Create(pf)
+		pprof.StartCPUProfile(f)
+		defer pprof.StopCPUProfile()
+	}
 	g := newGen(os.Getenv("C11_TIER") == "thorough")
 	out := bufio.NewWriterSize(os.Stdout, 1<<16)
 	fmt.Fprintln(out, "READY")
@@ -282,9 +293,21 @@ func workerMain() {
 		}
 		for i := from; i < to; i++ {
 			c := f.Case(i)
+			if only := os.Getenv("C11_ONLY"); only != "" && !strings.Contains(c.ID, only) {
+				continue
+			}
 			fmt.Fprintf(out, "S %d\n", i)
 			out.Flush()
+			var ru0, ru1 syscall.Rusage
+			if debugOn {
+				syscall.Getrusage(syscall.RUSAGE_SELF, &ru0)
+			}
 			res := e.runCase(c)
+			if debugOn {
+				syscall.Getrusage(syscall.RUSAGE_SELF, &ru1)
+				cpu := float64(ru1.Utime.Nano()+ru1.Stime.Nano()-ru0.Utime.Nano()-ru0.Stime.Nano()) / 1e9
+				fmt.Fprintf(os.Stderr, "#T %.3f %s %s maxrss=%dMB\n", cpu, className[res.class], c.ID, ru1.Maxrss/1024)
+			}
 			if res.class == clRuntimeFault || res.class == clOtherGoPanic {
 				fmt.Fprintf(out, "X %d %s\n", i, vk.J(map[string]any{"cl": res.class, "msg": res.msg, "site": res.site}))
 			}
@@ -293,5 +316,6 @@ func workerMain() {
 		fmt.Fprintln(out, "C")
 		out.Flush()
 	}
+	pprof.StopCPUProfile()
 	os.Exit(0)
 }
